@@ -98,12 +98,19 @@ def s_item(rng, it):
         m = it['m']
         ops = it['ops']
         head = m
-        if k == 'inst' and m in BASE_OFFSET and len(ops) == 3 and rng.random() < 0.5 and not ('hi' in ops[2] or 'lo' in ops[2] or 'pos' in ops[2] or 'off' in ops[2] or 'diff' in ops[2] or 'lab' in ops[2] or 'sum' in ops[2]):
-            # imm(reg): for stores the documented alternative is `sw rs2, imm(rs1)`
-            if m in ('sb', 'sh', 'sw', 'c.sw'):
-                body = '%s%s%s%s%s(%s)' % (head, rng.choice([' ', '\t']), s_op(rng, ops[1]), sep(rng), s_op(rng, ops[2]), s_op(rng, ops[0]))
+        modled = k == 'inst' and m in BASE_OFFSET and not m.startswith('c.') and len(ops) == 3 and ('lo' in ops[2] or 'hi' in ops[2])
+        if k == 'inst' and m in BASE_OFFSET and len(ops) == 3 and rng.random() < 0.5 and (modled or not ('hi' in ops[2] or 'lo' in ops[2] or 'pos' in ops[2] or 'off' in ops[2] or 'diff' in ops[2] or 'lab' in ops[2] or 'sum' in ops[2])):
+            # imm(reg): for stores the documented alternative is `sw rs2, imm(rs1)`.  The offset is a literal / constant, or the
+            # idiom `%lo(symbol)(reg)` (a modifier with its own parentheses in front of the base register)
+            if modled:
+                key = 'lo' if 'lo' in ops[2] else 'hi'
+                imm_s = '%%%s(%s)' % (key, s_op(rng, ops[2][key]))
             else:
-                body = '%s%s%s%s%s(%s)' % (head, rng.choice([' ', '\t']), s_op(rng, ops[0]), sep(rng), s_op(rng, ops[2]), s_op(rng, ops[1]))
+                imm_s = s_op(rng, ops[2])
+            if m in ('sb', 'sh', 'sw', 'c.sw'):
+                body = '%s%s%s%s%s(%s)' % (head, rng.choice([' ', '\t']), s_op(rng, ops[1]), sep(rng), imm_s, s_op(rng, ops[0]))
+            else:
+                body = '%s%s%s%s%s(%s)' % (head, rng.choice([' ', '\t']), s_op(rng, ops[0]), sep(rng), imm_s, s_op(rng, ops[1]))
         else:
             strs = [s_op(rng, o) for o in ops]
             if m in O.ATOMICS and (it.get('aq') or it.get('rl') or rng.random() < 0.5):
@@ -226,9 +233,47 @@ def run_case(asm, acc, case):
                 core.add_sample(acc, {'canonical': canon[:8], 'rewrite': lines[:12]})
 
 
+INCBYTES_SPELLINGS = ['include_bytes blob.bin', '    include_bytes blob.bin', '\tinclude_bytes blob.bin', 'include_bytes\tblob.bin', 'include_bytes   blob.bin',
+                      'include_bytes blob.bin # the font', 'include_bytes blob.bin   #8x8', '  include_bytes  blob.bin  # indented, commented', 'include_bytes blob.bin\t']
+
+
+def incbytes_case(asm, acc, seed, idx):
+    """`include_bytes` is a data line like `bytes`: indentation, the blank run after the keyword and a trailing comment are free"""
+    import os, shutil, tempfile
+    root = tempfile.mkdtemp(prefix='bbv-c13-')
+    try:
+        rng = random.Random('c13-ib-%d-%d' % (seed, idx))
+        with open(os.path.join(root, 'blob.bin'), 'wb') as f:
+            f.write(bytes(rng.randrange(256) for _ in range(rng.choice([2, 4, 6, 10]))))
+        outs = []
+        for k, sp in enumerate(INCBYTES_SPELLINGS):
+            lines = ['START:', 'addi x8, x8, 1', sp, 'AFTER:', 'j START']
+            path = os.path.join(root, 'm%d.asm' % k)
+            with open(path, 'w') as f:
+                f.write('\n'.join(lines) + '\n')
+            for compress in (False, True):
+                acc['n'] += 1
+                o = monitors.observe(asm, path, compress, tap=False)
+                outs.append((sp, compress, o))
+        for sp, compress, o in outs:
+            ref = next(r for s0, c0, r in outs if c0 == compress)
+            case = {'kind': 'incbytes', 'seed': seed, 'idx': idx}
+            acc['ntkeys'].add(core.ckey('ib', sp, compress, idx))
+            acc['ctr']['include_bytes_spellings'] += 1
+            if ref.ok and not o.ok:
+                core.add_viol(acc, 'rewrite is refused (%s: %s) at line %r; the plain spelling assembles (compress=%s)' % (o.exc['type'], o.exc['msg'], sp, compress), case, {})
+            elif ref.ok and (o.out != ref.out or o.labels != ref.labels):
+                core.add_viol(acc, 'line %r: %d bytes, labels %r; the plain spelling gives %d bytes, labels %r (compress=%s)' % (
+                    sp, len(o.out), o.labels, len(ref.out), ref.labels, compress), case, {})
+    finally:
+        shutil.rmtree(root, ignore_errors=True)
+
+
 def run_shard(sh, deadline):
     asm = core.load_asm()
     acc = core.new_acc()
+    if sh['lo'] % 400 == 0:
+        incbytes_case(asm, acc, sh['seed'], sh['lo'])
     for idx in range(sh['lo'], sh['hi']):
         run_case(asm, acc, {'seed': sh['seed'], 'idx': idx, 'rewrites': sh['rewrites']})
         if time.time() > deadline:
@@ -253,6 +298,10 @@ def gates(acc, tier):
 
 def replay(case):
     asm = core.load_asm()
+    if case.get('kind') == 'incbytes':
+        acc = core.new_acc()
+        incbytes_case(asm, acc, case['seed'], case['idx'])
+        return acc
     acc = core.new_acc()
     run_case(asm, acc, {'seed': case['seed'], 'idx': case['idx'], 'rewrites': max(case.get('rewrite', 0) + 1, 1)})
     return acc
